@@ -165,6 +165,27 @@ Proof.
     discriminate.
 Qed.
 
+(* Second cause, masked by the first on the unchanged tree: UnboundStepwise.s (stepwise.py:193) passes
+   __leaf__=True for Stepwise, a controller.  With the service wrapper out of the way (what inspect
+   reports = the running __init__), stepwise(f).s(base=g) is accepted because the check leaves out the
+   target slot, yet Stepwise(target, f, base=g, ...) never binds.
+   Stepwise.__init__(self, target, base, *rules, interval=1); names 0 target, 3 base, 4 rules, 5 interval *)
+Definition stepwise_init : sig := mkSig [] [(0%N, false); (3%N, false)] (Some 4%N) [(5%N, true)] None.
+Definition stepwise_unshadowed : cls :=
+  mkCls 0%N KController [mkLayer false (Some stepwise_init); mkLayer false (Some (mkSig [] [(0%N, false)] None [] None))].
+
+Theorem unbound_stepwise_leaf_refuted :
+  let c := stepwise_unshadowed in
+  let a := [VAtom 900] in                      (* self.base, put first by UnboundStepwise.s *)
+  let k := [(3%N, VAtom 5)] in                 (* base=g *)
+  effective_sig c = init_sig c /\ passes_target a k = false
+  /\ accepted (new_partial c true a k)                                   (* leaf=True: no target slot *)
+  /\ forall n' keys', call_binds c (1 + length a + n') (keys_of k ++ keys') = false.   (* with the target *)
+Proof.
+  cbv zeta. split; [reflexivity|]. split; [reflexivity|]. split; [eexists; reflexivity|].
+  intros n' keys'. unfold call_binds. apply (never_binds (init_sig stepwise_unshadowed) 2 [3%N] eq_refl).
+Qed.
+
 (* ---- the three tail forms -------------------------------------------------------------------- *)
 Inductive tail_form :=
 | TInst (id : N)                                                   (* a pool instance *)
